@@ -1,3 +1,4 @@
 /- Aggregate: C03 input-boundedness/termination/codes (C03.lean) and the document left by deserializeJson is well formed for any input and failure schedule (C03Doc.lean). -/
 import AJ.Props.C03
 import AJ.Props.C03Doc
+import AJ.Props.C03MpDoc
